@@ -375,4 +375,473 @@ example : computeSensitivityMap ratNum true (fun _ => exA) [[(1, 0)], [(1, 0)]] 
 example : ∃ c ∈ fibre ([[((3 : ℝ), (4 : ℝ))]] : SMap ℝ) 0, c ≠ (0, 0) :=
   ⟨(3, 4), by simp [fibre], by simp⟩
 
+
+/-! # phase 3 -/
+
+/-! ## per-pixel positive weights do not change the maps -/
+
+/-- **`renorm_weight_invariant`**: multiplying every pixel's coil vector by a positive weight (the Gaussian
+window with a pixel-wise backward operator, a per-pixel gain, a global scale) leaves the normalised
+map unchanged — as a whole tensor. -/
+theorem renorm_weight_invariant (w : Nat → ℝ) (hw : ∀ p, 0 < w p) (S : SMap ℝ) :
+    renorm realNum (weightPixels w S) = renorm realNum S := by
+  calc renorm realNum (weightPixels w S)
+      = divMapWith (safeDivide realNum) (divMapWith (fun a b => a * b) S w) (normAt realNum (weightPixels w S)) := rfl
+    _ = S.map (fun coil => coil.mapIdx fun p c =>
+          (safeDivide realNum (c.1 * w p) (normAt realNum (weightPixels w S) p),
+           safeDivide realNum (c.2 * w p) (normAt realNum (weightPixels w S) p))) :=
+        divMapWith_divMapWith' _ _ _ _ _
+    _ = divMapWith (safeDivide realNum) S (normAt realNum S) := by
+        rw [divMapWith_eq_map]
+        apply List.map_congr_left
+        intro coil _
+        congr 1
+        funext p c
+        rw [normAt_weightPixels w S p (le_of_lt (hw p)), safeDivide_real_scale _ _ _ (hw p),
+          safeDivide_real_scale _ _ _ (hw p)]
+    _ = renorm realNum S := rfl
+
+/-- over ℝ the maps do not depend on the magnitude of the data: any global scale `s > 0` cancels -/
+theorem renorm_scale_invariant (s : ℝ) (hs : 0 < s) (S : SMap ℝ) :
+    renorm realNum (weightPixels (fun _ => s) S) = renorm realNum S :=
+  renorm_weight_invariant _ (fun _ => hs) S
+
+theorem estimate_weight_invariant (w : Nat → ℝ) (hw : ∀ p, 0 < w p) (a : SMap ℝ) :
+    estimateRSS realNum (weightPixels w a) = estimateRSS realNum a := by
+  rw [estimate_eq_renorm, estimate_eq_renorm, renorm_weight_invariant w hw]
+
+/-- the engine: a refinement output scaled by positive per-pixel factors gives the same maps -/
+theorem refined_weight_invariant (w : Nat → ℝ) (hw : ∀ p, 0 < w p) (refine : SMap ℝ → SMap ℝ) (S : SMap ℝ)
+    (hS : 1 < S.length) :
+    computeSensitivityMap realNum true (fun x => weightPixels w (refine x)) S =
+      computeSensitivityMap realNum true refine S := by
+  unfold computeSensitivityMap
+  have h : (S.length > 1 ∧ true = true) := ⟨hS, rfl⟩
+  rw [if_pos h, if_pos h, renorm_weight_invariant w hw]
+
+example : ∀ p : Nat, (0 : ℝ) < (fun _ => (2 : ℝ)) p := fun _ => by norm_num
+
+/-! ## the Gaussian window: `linspace(-1, 1, W)` coordinates, weights, guards -/
+
+/-- `linspace(-1, 1, 1) = [-1]`: the singleton width needs no division -/
+theorem linspaceCoord_one {α : Type} [Zero α] [Add α] [Mul α] [DecidableEq α] (num : Num α) (wn : WinNum α) (j : Nat) :
+    linspaceCoord num wn 1 j = wn.ofInt (-1) := by
+  simp [linspaceCoord]
+
+/-- closed form for `W ≥ 2`: `-1 + 2 j / (W - 1)` -/
+theorem linspaceCoord_real (W j : Nat) (hW : 2 ≤ W) :
+    linspaceCoord realNum realWin W j = -1 + 2 * (j : ℝ) / ((W : ℝ) - 1) := by
+  have h1 : ¬ W ≤ 1 := by omega
+  have hne : ((W : ℝ) - 1) ≠ 0 := by
+    have : (2 : ℝ) ≤ (W : ℝ) := by exact_mod_cast hW
+    linarith
+  simp only [linspaceCoord, h1, if_false, realNum, realWin]
+  push_cast
+  field_simp
+  ring
+
+/-- the end points are `-1` and `1` -/
+theorem linspaceCoord_endpoints (W : Nat) (hW : 2 ≤ W) :
+    linspaceCoord realNum realWin W 0 = -1 ∧ linspaceCoord realNum realWin W (W - 1) = 1 := by
+  have hne : ((W : ℝ) - 1) ≠ 0 := by
+    have : (2 : ℝ) ≤ (W : ℝ) := by exact_mod_cast hW
+    linarith
+  constructor
+  · rw [linspaceCoord_real W 0 hW]; simp
+  · rw [linspaceCoord_real W (W - 1) hW]
+    have : ((W - 1 : Nat) : ℝ) = (W : ℝ) - 1 := by
+      rw [Nat.cast_sub (by omega)]; simp
+    rw [this]
+    field_simp
+    ring
+
+/-- every coordinate lies in `[-1, 1]` (also for `W = 1`) -/
+theorem linspaceCoord_abs_le_one (W j : Nat) (hj : j < W) : |linspaceCoord realNum realWin W j| ≤ 1 := by
+  by_cases hW : 2 ≤ W
+  · rw [linspaceCoord_real W j hW, abs_le]
+    have hpos : (0 : ℝ) < (W : ℝ) - 1 := by
+      have : (2 : ℝ) ≤ (W : ℝ) := by exact_mod_cast hW
+      linarith
+    have hjw : (j : ℝ) ≤ (W : ℝ) - 1 := by
+      have : (j : ℝ) + 1 ≤ (W : ℝ) := by exact_mod_cast hj
+      linarith
+    have hj0 : (0 : ℝ) ≤ (j : ℝ) := Nat.cast_nonneg j
+    constructor
+    · have : 0 ≤ 2 * (j : ℝ) / ((W : ℝ) - 1) := div_nonneg (by linarith) (le_of_lt hpos)
+      linarith
+    · have : 2 * (j : ℝ) / ((W : ℝ) - 1) ≤ 2 := by
+        rw [div_le_iff₀ hpos]; linarith
+      linarith
+  · have hW1 : W = 1 := by omega
+    subst hW1
+    rw [linspaceCoord_one]
+    simp [realWin]
+
+section window_indep
+variable {α : Type} [Zero α] [Add α] [Mul α] [DecidableEq α]
+
+omit [Add α] [Mul α] [DecidableEq α] in
+/-- no coordinate of the window uses a division by zero (`W - 1 ≠ 0` whenever a division happens) -/
+theorem linspaceCoord_indep_div_zero (num num' : Num α) (wn : WinNum α)
+    (hd : ∀ a b, b ≠ 0 → num.div a b = num'.div a b) (hz : ∀ n : Int, n ≠ 0 → wn.ofInt n ≠ 0) (W j : Nat) :
+    linspaceCoord num wn W j = linspaceCoord num' wn W j := by
+  unfold linspaceCoord
+  by_cases h : W ≤ 1
+  · simp [h]
+  · simp only [h, if_false]
+    exact hd _ _ (hz _ (by omega))
+
+omit [Add α] [DecidableEq α] in
+/-- … nor does a weight, when `sigma ≠ 0` (which the guard of the code ensures) -/
+theorem gaussWeight_indep_div_zero (num num' : Num α) (wn : WinNum α)
+    (hd : ∀ a b, b ≠ 0 → num.div a b = num'.div a b) (hz : ∀ n : Int, n ≠ 0 → wn.ofInt n ≠ 0)
+    (sigma : α) (hs : sigma ≠ 0) (W j : Nat) :
+    gaussWeight num wn sigma W j = gaussWeight num' wn sigma W j := by
+  unfold gaussWeight gaussExponent
+  rw [linspaceCoord_indep_div_zero num num' wn hd hz, hd _ _ hs]
+
+omit [Add α] in
+/-- the masked / weighted ACS k-space never depends on the value of a division by zero — for every
+`sigma` (`None`, `0`, non-zero), every width (`W = 1` included), every mask -/
+theorem acsKspace_indep_div_zero (num num' : Num α) (wn : WinNum α)
+    (hd : ∀ a b, b ≠ 0 → num.div a b = num'.div a b) (hz : ∀ n : Int, n ≠ 0 → wn.ofInt n ≠ 0)
+    (sigma : Option α) (W : Nat) (k : SMap α) (m : Nat → α) :
+    acsKspace num wn sigma W k m = acsKspace num' wn sigma W k m := by
+  unfold acsKspace
+  cases hs : gaussianActive sigma with
+  | none => rfl
+  | some s =>
+    have hs0 : s ≠ 0 := by
+      unfold gaussianActive at hs
+      cases sigma with
+      | none => simp at hs
+      | some t =>
+        by_cases ht : t = 0
+        · simp [ht] at hs
+        · simp only [ht, if_false, Option.some.injEq] at hs; rw [← hs]; exact ht
+    simp only
+    congr 1
+    funext p
+    exact gaussWeight_indep_div_zero num num' wn hd hz s hs0 W _
+
+end window_indep
+
+/-- the weights are positive and at most one -/
+theorem gaussWeight_pos (sigma : ℝ) (W j : Nat) : 0 < gaussWeight realNum realWin sigma W j := by
+  unfold gaussWeight realWin
+  exact Real.exp_pos _
+
+theorem gaussWeight_le_one (sigma : ℝ) (W j : Nat) : gaussWeight realNum realWin sigma W j ≤ 1 := by
+  unfold gaussWeight gaussExponent realWin
+  simp only
+  rw [Real.exp_le_one_iff]
+  have := mul_self_nonneg (realNum.div (linspaceCoord realNum { ofInt := fun n => (n : ℝ), expNeg := fun x => Real.exp (-x) } W j) sigma)
+  linarith
+
+/-- the seeded variant `(arange(W) - W // 2) / (W // 2)` divides by zero for a singleton width; `linspace` does not -/
+theorem arange_window_violates :
+    arangeCoord ratNum ratWin 1 0 = 1000003 ∧ linspaceCoord ratNum ratWin 1 0 = -1 := by decide +kernel
+
+/-- **`estimate_gauss_eq_plain`**: with a pixel-wise backward operator (`B = id`, the situation of the
+correspondence) the Gaussian weighting does not change the estimated map at all, for every `sigma`,
+width and mask. -/
+theorem estimate_gauss_eq_plain (sigma : Option ℝ) (W : Nat) (k : SMap ℝ) (m : Nat → ℝ) :
+    estimateRSS realNum (estimateAcsImage realNum realWin id sigma W k m) =
+      estimateRSS realNum (estimateAcsImage realNum realWin id none W k m) := by
+  unfold estimateAcsImage acsKspace
+  cases hs : gaussianActive sigma with
+  | none => rfl
+  | some s =>
+    simp only [id, gaussianActive]
+    exact estimate_weight_invariant _ (fun p => gaussWeight_pos s W (p % W)) _
+
+/-- **`estimate_forward_normalised`**: for every backward operator, `sigma`, width, mask and k-space the
+estimated map is unit-or-zero at every pixel, zero exactly where the ACS image has no signal. -/
+theorem estimate_forward_normalised (B : SMap ℝ → SMap ℝ) (sigma : Option ℝ) (W : Nat) (k : SMap ℝ) (m : Nat → ℝ) (p : Nat) :
+    let a := estimateAcsImage realNum realWin B sigma W k m
+    (sumSqAt (estimateRSS realNum a) p = 1 ∨ ∀ c ∈ fibre (estimateRSS realNum a) p, c = (0, 0)) ∧
+    ((∀ c ∈ fibre (estimateRSS realNum a) p, c = (0, 0)) ↔ (∀ c ∈ fibre a p, c = (0, 0))) :=
+  estimate_normalised _ p
+
+
+/-! ## finiteness of the weighted path -/
+
+section finite2
+variable {α : Type} [Zero α] [Add α] [Mul α] [DecidableEq α]
+
+omit [DecidableEq α] in
+theorem weightPixels_finite (num : Num α) (fin : α → Prop) (hc : FiniteClosed num fin) (w : Nat → α)
+    (hw : ∀ p, fin (w p)) (S : SMap α) (hS : AllFinite fin S) : AllFinite fin (weightPixels w S) := by
+  intro coil' hcoil' c' hc'
+  unfold weightPixels divMapWith at hcoil'
+  obtain ⟨coil, hcoil, rfl⟩ := List.mem_map.mp hcoil'
+  obtain ⟨p, hp, rfl⟩ := List.mem_mapIdx.mp hc'
+  obtain ⟨h1, h2⟩ := hS coil hcoil _ (List.getElem_mem hp)
+  exact ⟨hc.mul _ _ h1 (hw p), hc.mul _ _ h2 (hw p)⟩
+
+omit [DecidableEq α] in
+/-- **`gaussWeight_finite`**: finite positive weights — every division of the window has a non-zero divisor
+(`W - 1` for `W ≥ 2`, none for `W = 1`, `sigma ≠ 0` by the guard), so the weights are finite whatever `x / 0` is -/
+theorem gaussWeight_finite (num : Num α) (wn : WinNum α) (fin : α → Prop) (hc : FiniteClosed num fin)
+    (hi : ∀ n, fin (wn.ofInt n)) (he : ∀ x, fin x → fin (wn.expNeg x)) (hz : ∀ n : Int, n ≠ 0 → wn.ofInt n ≠ 0)
+    (sigma : α) (hs : sigma ≠ 0) (hsf : fin sigma) (W j : Nat) : fin (gaussWeight num wn sigma W j) := by
+  unfold gaussWeight gaussExponent
+  apply he
+  have hx : fin (linspaceCoord num wn W j) := by
+    unfold linspaceCoord
+    by_cases h : W ≤ 1
+    · simp only [h, if_true]; exact hi _
+    · simp only [h, if_false]; exact hc.div _ _ (hi _) (hi _) (hz _ (by omega))
+  have hq := hc.div _ _ hx hsf hs
+  exact hc.mul _ _ hq hq
+
+/-- the masked / weighted ACS k-space of finite data is finite, for every option value -/
+theorem acsKspace_finite (num : Num α) (wn : WinNum α) (fin : α → Prop) (hc : FiniteClosed num fin)
+    (hi : ∀ n, fin (wn.ofInt n)) (he : ∀ x, fin x → fin (wn.expNeg x)) (hz : ∀ n : Int, n ≠ 0 → wn.ofInt n ≠ 0)
+    (sigma : Option α) (hsf : ∀ s, sigma = some s → fin s) (W : Nat) (k : SMap α) (hk : AllFinite fin k)
+    (m : Nat → α) (hm : ∀ p, fin (m p)) : AllFinite fin (acsKspace num wn sigma W k m) := by
+  unfold acsKspace
+  cases hs : gaussianActive sigma with
+  | none => exact weightPixels_finite num fin hc m hm k hk
+  | some s =>
+    have hs' : sigma = some s ∧ s ≠ 0 := by
+      unfold gaussianActive at hs
+      cases sigma with
+      | none => simp at hs
+      | some t =>
+        by_cases ht : t = 0
+        · simp [ht] at hs
+        · simp only [ht, if_false, Option.some.injEq] at hs; subst hs; exact ⟨rfl, ht⟩
+    simp only
+    apply weightPixels_finite num fin hc _ _ _ (weightPixels_finite num fin hc m hm k hk)
+    intro p
+    exact gaussWeight_finite num wn fin hc hi he hz s hs'.2 (hsf s hs'.1) W _
+
+/-- **`estimate_gauss_finite`**: the map estimated with or without Gaussian weighting is finite, for every
+backward operator that keeps finite tensors finite -/
+theorem estimate_gauss_finite (num : Num α) (wn : WinNum α) (fin : α → Prop) (hc : FiniteClosed num fin)
+    (hi : ∀ n, fin (wn.ofInt n)) (he : ∀ x, fin x → fin (wn.expNeg x)) (hz : ∀ n : Int, n ≠ 0 → wn.ofInt n ≠ 0)
+    (B : SMap α → SMap α) (hB : ∀ x, AllFinite fin x → AllFinite fin (B x))
+    (sigma : Option α) (hsf : ∀ s, sigma = some s → fin s) (W : Nat) (k : SMap α) (hk : AllFinite fin k)
+    (m : Nat → α) (hm : ∀ p, fin (m p)) :
+    AllFinite fin (estimateRSS num (estimateAcsImage num wn B sigma W k m)) := by
+  apply estimateRSS_finite num fin hc
+  exact hB _ (acsKspace_finite num wn fin hc hi he hz sigma hsf W k hk m hm)
+
+end finite2
+
+/-- the hypotheses are satisfiable (ℝ, integer casts are injective at 0) -/
+example : ∀ n : Int, n ≠ 0 → realWin.ofInt n ≠ 0 := fun n hn => by simpa [realWin] using hn
+
+/-! ## the three map types flow into the common tail; ESPIRiT's last step -/
+
+theorem forward_rss_eq {α : Type} [Zero α] [One α] [Add α] [Mul α] [DecidableEq α] (num : Num α)
+    (calib a : SMap α) (coils pixels : Nat) :
+    forwardMap num .rssEstimate calib a coils pixels = estimateRSS num a := rfl
+
+theorem forward_unit_eq {α : Type} [Zero α] [One α] [Add α] [Mul α] [DecidableEq α] (num : Num α)
+    (calib a : SMap α) (coils pixels : Nat) :
+    forwardMap num .unit calib a coils pixels = estimateUnit num coils pixels := rfl
+
+/-- **`forward_normalised`**: whichever map type is configured — and whatever the ESPIRiT calibrator
+returns — the module's output is unit-or-zero at every pixel. -/
+theorem forward_normalised (ty : MapType) (calib a : SMap ℝ) (coils pixels p : Nat) :
+    sumSqAt (forwardMap realNum ty calib a coils pixels) p = 1 ∨
+    ∀ c ∈ fibre (forwardMap realNum ty calib a coils pixels) p, c = (0, 0) := by
+  unfold forwardMap
+  exact renorm_unit_or_zero _ p
+
+/-- for ESPIRiT the zero case is exactly "the calibrator's map vanishes at the pixel" (eigenvalue cropped) -/
+theorem forward_espirit_zero_iff (calib a : SMap ℝ) (coils pixels p : Nat) :
+    (∀ c ∈ fibre (forwardMap realNum .espirit calib a coils pixels) p, c = (0, 0)) ↔
+      (∀ c ∈ fibre calib p, c = (0, 0)) := by
+  unfold forwardMap
+  exact renorm_zero_iff _ p
+
+theorem forward_indep_div_zero {α : Type} [Zero α] [One α] [Add α] [Mul α] [DecidableEq α] (num num' : Num α)
+    (hs : num.sqrt = num'.sqrt) (hd : ∀ a b, b ≠ 0 → num.div a b = num'.div a b) (ty : MapType)
+    (calib a : SMap α) (coils pixels : Nat) :
+    forwardMap num ty calib a coils pixels = forwardMap num' ty calib a coils pixels := by
+  cases ty
+  · exact renorm_indep_div_zero num num' hs hd _
+  · exact estimateRSS_indep_div_zero num num' hs hd a
+  · exact renorm_indep_div_zero num num' hs hd _
+
+theorem forward_finite {α : Type} [Zero α] [One α] [Add α] [Mul α] [DecidableEq α] (num : Num α)
+    (fin : α → Prop) (hc : FiniteClosed num fin) (h1 : fin 1) (ty : MapType) (calib a : SMap α)
+    (hcal : AllFinite fin calib) (ha : AllFinite fin a) (coils pixels : Nat) :
+    AllFinite fin (forwardMap num ty calib a coils pixels) := by
+  unfold forwardMap
+  apply renorm_finite num fin hc
+  cases ty
+  · intro coil hcoil c hcc
+    unfold unitMap at hcoil
+    rw [List.mem_replicate] at hcoil
+    rw [hcoil.2, List.mem_replicate] at hcc
+    rw [hcc.2]
+    exact ⟨h1, hc.zero⟩
+  · exact renorm_finite num fin hc a ha
+  · exact hcal
+
+/-- ESPIRiT's `x * conj x / |x|` is the modulus of the entry … -/
+theorem espiritPhase_real (c : ℝ × ℝ) : espiritPhase realNum c = (Real.sqrt (Sens.sq c), 0) := by
+  unfold espiritPhase realNum
+  simp only [Real.div_sqrt]
+
+theorem sq_espiritPhase (c : ℝ × ℝ) : Sens.sq (espiritPhase realNum c) = Sens.sq c := by
+  rw [espiritPhase_real]
+  unfold Sens.sq
+  simp only [mul_zero, add_zero]
+  exact Real.mul_self_sqrt (sq_nonneg_cx c)
+
+/-- … so the step keeps the per-pixel normalisation the power method established (`Σ|x_i|² = 1` stays `1`
+where the eigenvalue passes the crop threshold, `0` where it does not) -/
+theorem sumSqAt_espiritTail (x : SMap ℝ) (keep : Nat → ℝ) (p : Nat) :
+    sumSqAt (espiritTail realNum x keep) p = keep p * keep p * sumSqAt x p := by
+  unfold espiritTail
+  rw [sumSqAt_weightPixels]
+  congr 1
+  unfold sumSqAt fibre
+  rw [List.filterMap_map]
+  have : (List.filterMap ((fun x => x[p]?) ∘ fun coil => List.map (espiritPhase realNum) coil) x)
+      = (List.filterMap (fun x => x[p]?) x).map (espiritPhase realNum) := by
+    rw [List.map_filterMap]
+    congr 1
+    funext coil
+    simp [Function.comp, List.getElem?_map]
+  rw [this, List.map_map]
+  congr 1
+  apply List.map_congr_left
+  intro c _
+  exact sq_espiritPhase c
+
+/-- **but the division is unguarded**: over a type with `x / 0` = poison the step returns poison for a
+zero entry (float32: `0 * 0 / 0 = NaN`), and `safe_divide` in the common tail does not remove it -/
+theorem espirit_phase_unguarded : espiritPhase ratNum ((0 : Rat), (0 : Rat)) = (1000003, 0) := by decide +kernel
+
+/-! ## which refinement model is applied; channel-first permutations -/
+
+theorem modelChoice_single_coil (h2 h3 : Bool) (nd : Int) : modelChoice false h2 h3 nd = 0 := by
+  simp [modelChoice]
+
+theorem modelChoice_no_model (mc : Bool) (nd : Int) : modelChoice mc false false nd = 0 := by
+  simp [modelChoice]
+
+/-- 3-D data prefer the 3-D model; the 2-D model is applied slice by slice only when there is no 3-D one -/
+theorem modelChoice_3d (h2 : Bool) (nd : Int) (hnd : nd ≠ 2) : modelChoice true h2 true nd = 2 := by
+  simp [modelChoice, hnd]
+
+theorem modelChoice_2d (h3 : Bool) : modelChoice true true h3 2 = 1 := by
+  simp [modelChoice]
+
+theorem perm2d_roundtrip (n c h w k : Nat) :
+    permuteShape permIn2d [n, c, h, w, k] = [n, c, k, h, w] ∧
+    permuteShape permOut2d (permuteShape permIn2d [n, c, h, w, k]) = [n, c, h, w, k] := by
+  constructor <;> rfl
+
+theorem perm3d_roundtrip (n c s h w k : Nat) :
+    permuteShape permIn3d [n, c, s, h, w, k] = [n, c, k, s, h, w] ∧
+    permuteShape permOut3d (permuteShape permIn3d [n, c, s, h, w, k]) = [n, c, s, h, w, k] := by
+  constructor <;> rfl
+
+example : permInverse permIn2d permOut2d = true ∧ permInverse permIn3d permOut3d = true := by decide
+
+
+/-! ## magnitudes: the documented float32 range `2^-60 … 2^60`
+
+Statements over ℝ about the *sizes* of the intermediates of `renorm` at one pixel.  float32 has normal numbers
+from `2^-126` up to (just below) `2^128`; an operation whose exact result lies in that range is rounded with relative
+error `≤ 2^-24` and neither overflows nor underflows.  `rangeLo = 2^-60`, `rangeHi = 2^60`. -/
+
+/-- **`sumsq_in_normal_range`**: at a pixel with at most 64 coils (128 real entries) whose entries are all
+`≤ 2^60` in magnitude and one of which is `≥ 2^-60`, every square is `≤ 2^120`, the sum of squares lies in
+`[2^-120, 2^127]` — inside the float32 normal range: no overflow, no underflow. -/
+theorem sumsq_in_normal_range (v : List (ℝ × ℝ)) (hlen : v.length ≤ 64)
+    (hub : ∀ c ∈ v, |c.1| ≤ rangeHi ∧ |c.2| ≤ rangeHi)
+    (hlb : ∃ c ∈ v, rangeLo ≤ |c.1| ∨ rangeLo ≤ |c.2|) :
+    rangeLo * rangeLo ≤ (v.map Sens.sq).sum ∧ (v.map Sens.sq).sum ≤ 2 ^ 127 := by
+  constructor
+  · obtain ⟨c, hc, h⟩ := hlb
+    have hlo : (0 : ℝ) ≤ rangeLo := by unfold rangeLo; positivity
+    have h1 : rangeLo * rangeLo ≤ Sens.sq c := by
+      unfold Sens.sq
+      rcases h with h | h
+      · have := mul_self_ge_of_abs_ge c.1 rangeLo hlo h
+        nlinarith [mul_self_nonneg c.2]
+      · have := mul_self_ge_of_abs_ge c.2 rangeLo hlo h
+        nlinarith [mul_self_nonneg c.1]
+    exact le_trans h1 (sq_le_sumsq v c hc)
+  · have h := sumsq_le_length v rangeHi hub
+    have hl : (v.length : ℝ) ≤ 64 := by exact_mod_cast hlen
+    have hb : (0 : ℝ) ≤ 2 * (rangeHi * rangeHi) := by unfold rangeHi; positivity
+    calc (v.map Sens.sq).sum ≤ v.length * (2 * (rangeHi * rangeHi)) := h
+      _ ≤ 64 * (2 * (rangeHi * rangeHi)) := mul_le_mul_of_nonneg_right hl hb
+      _ = 2 ^ 127 := by unfold rangeHi; norm_num
+
+/-- hence the norm the code divides by lies in `[2^-60, 2^64]` … -/
+theorem norm_in_normal_range (v : List (ℝ × ℝ)) (hlen : v.length ≤ 64)
+    (hub : ∀ c ∈ v, |c.1| ≤ rangeHi ∧ |c.2| ≤ rangeHi)
+    (hlb : ∃ c ∈ v, rangeLo ≤ |c.1| ∨ rangeLo ≤ |c.2|) :
+    rangeLo ≤ Real.sqrt (v.map Sens.sq).sum ∧ Real.sqrt (v.map Sens.sq).sum ≤ 2 ^ 64 := by
+  obtain ⟨h1, h2⟩ := sumsq_in_normal_range v hlen hub hlb
+  have hlo : (0 : ℝ) ≤ rangeLo := by unfold rangeLo; positivity
+  constructor
+  · calc rangeLo = Real.sqrt (rangeLo * rangeLo) := (Real.sqrt_mul_self hlo).symm
+      _ ≤ Real.sqrt (v.map Sens.sq).sum := Real.sqrt_le_sqrt h1
+  · calc Real.sqrt (v.map Sens.sq).sum ≤ Real.sqrt (2 ^ 64 * 2 ^ 64) :=
+          Real.sqrt_le_sqrt (le_trans h2 (by norm_num))
+      _ = 2 ^ 64 := Real.sqrt_mul_self (by positivity)
+
+/-- … and a quotient `x / norm` is at most `1` in magnitude (never overflows) and, for an entry of magnitude
+`≥ 2^-60`, at least `2^-124` (a normal float32, no underflow). -/
+theorem quotient_in_normal_range (v : List (ℝ × ℝ)) (hlen : v.length ≤ 64)
+    (hub : ∀ c ∈ v, |c.1| ≤ rangeHi ∧ |c.2| ≤ rangeHi)
+    (c : ℝ × ℝ) (hc : c ∈ v) (hx : rangeLo ≤ |c.1|) :
+    1 / 2 ^ 124 ≤ |c.1 / Real.sqrt (v.map Sens.sq).sum| ∧ |c.1 / Real.sqrt (v.map Sens.sq).sum| ≤ 1 := by
+  obtain ⟨h1, h2⟩ := norm_in_normal_range v hlen hub ⟨c, hc, Or.inl hx⟩
+  have hlo : (0 : ℝ) < rangeLo := by unfold rangeLo; positivity
+  have hn : 0 < Real.sqrt (v.map Sens.sq).sum := lt_of_lt_of_le hlo h1
+  rw [abs_div, abs_of_pos hn]
+  constructor
+  · rw [le_div_iff₀ hn]
+    calc 1 / 2 ^ 124 * Real.sqrt (v.map Sens.sq).sum ≤ 1 / 2 ^ 124 * 2 ^ 64 :=
+          mul_le_mul_of_nonneg_left h2 (by positivity)
+      _ = rangeLo := by unfold rangeLo; norm_num
+      _ ≤ |c.1| := hx
+  · rw [div_le_one hn]
+    have hsq : c.1 * c.1 ≤ (v.map Sens.sq).sum := by
+      have h3 := sq_le_sumsq v c hc
+      have h4 : c.1 * c.1 ≤ Sens.sq c := by unfold Sens.sq; nlinarith [mul_self_nonneg c.2]
+      exact le_trans h4 h3
+    calc |c.1| = Real.sqrt (c.1 * c.1) := (Real.sqrt_mul_self_eq_abs c.1).symm
+      _ ≤ Real.sqrt (v.map Sens.sq).sum := Real.sqrt_le_sqrt hsq
+
+/-- the hypotheses are satisfiable, at both ends of the range at once -/
+example : ∃ v : List (ℝ × ℝ), v.length ≤ 64 ∧ (∀ c ∈ v, |c.1| ≤ rangeHi ∧ |c.2| ≤ rangeHi) ∧
+    (∃ c ∈ v, rangeLo ≤ |c.1| ∨ rangeLo ≤ |c.2|) :=
+  ⟨[(rangeHi, 0), (rangeLo, 0)], by simp, by
+    have h0 : (0 : ℝ) ≤ rangeHi := by unfold rangeHi; positivity
+    simp [abs_of_nonneg h0, h0]
+    unfold rangeLo rangeHi; rw [abs_of_nonneg (by positivity)]; norm_num,
+   ⟨(rangeHi, 0), by simp, Or.inl (by
+    have h0 : (0 : ℝ) ≤ rangeHi := by unfold rangeHi; positivity
+    rw [abs_of_nonneg h0]; unfold rangeLo rangeHi; norm_num)⟩⟩
+
+/-- where the range ends (witnesses): a single entry of magnitude `2^64` has a square `2^128`, above every finite
+float32 (`< 2^128`): the squared sum overflows to `inf` and the map degenerates to `0`; an entry of magnitude `2^-75`
+has a square `2^-150`, below half the smallest positive float32 (`2^-149`): it rounds to `0` and the pixel is treated
+as having no signal.  The documented range `2^±60` keeps a margin for up to 64 coils and for the quotient. -/
+theorem range_end_witnesses :
+    Sens.sq (((2 : ℝ) ^ 64), 0) = 2 ^ 128 ∧ Sens.sq ((1 / (2 : ℝ) ^ 75), 0) = 1 / 2 ^ 150 ∧
+    (1 / (2 : ℝ) ^ 150 < 1 / 2 ^ 149) := by
+  unfold Sens.sq
+  refine ⟨by norm_num, by norm_num, by norm_num⟩
+
+/-- with 64 coils all at `2^60` the bound `2^127` is attained: the range cannot be widened without lowering the coil count -/
+theorem range_bound_attained :
+    ((List.replicate 64 (((2 : ℝ) ^ 60), ((2 : ℝ) ^ 60))).map Sens.sq).sum = 2 ^ 127 := by
+  simp only [List.map_replicate, List.sum_replicate, Sens.sq]
+  norm_num
+
+
 end DirectVerif.C09
